@@ -200,6 +200,34 @@ T = {
     "C19d": ("C19", "query_with_repairs seeds its candidates from the smallest repair but still skips repair 0 when filtering",
              "maximal repairs of different sizes, the smallest not discovered first, a query matching a fact only the smallest repair has",
              "C19-R2 (candidates are seeded from the first repair; only the seeding repair is skipped)", None),
+    # ---- batch e
+    "C01e": ("C01", "build_dataset_view: a query with FROM but no FROM NAMED sees every catalogued named graph instead of none",
+             "at least one FROM, no FROM NAMED, and a GRAPH pattern matching an existing named graph",
+             "C01-R20 (a dataset clause replaces the dataset)", "missed by C01-R1..R19; C01-R20 added"),
+    "C02e": ("C02", "the hash-join and nested-loop executors evaluate their right operand from the incoming solutions as well: (I x L) x (I x R)",
+             "a join executed by the hash / nested-loop executor below a bind join, with two mutually compatible incoming rows",
+             "C02-R12 (the incoming solutions enter a join once)", "missed by C02-R1..R11; C02-R12 added"),
+    "C03e": ("C03", "execute_modify applies the deletions before the INSERT template is expanded: the legality checks of the insert see the dataset after the delete",
+             "a DELETE/INSERT whose INSERT subject or predicate is a variable bound to a relative IRI that the same operation deletes everywhere",
+             "C03-R1 / R3 (no evaluation or instantiation follows the mutation; no Err exit after the first mutation)", None),
+    "C04e": ("C04", "create_graph also inserts an empty gspo entry for the graph; drop_graph removes the catalog entry only, the legacy readers treat every gspo key as an existing graph",
+             "create_graph(g) followed by drop_graph(g) without any insert into g", "C04-R1 (exactly one inserting writer of the quad indexes)", None),
+    "C05e": ("C05", "evaluate_filters looks the filter's constant up in the dictionary and compares by id when it is a term of the fact base",
+             "a numeric threshold that also occurs, spelled the same, as a term (ordering operators then pass unchecked on the tree before 3fa2230; after it `18` = `18.0` fails)",
+             "C05-R12 (accept only after all operators were excluded; ids are compared only when both come from the bindings)",
+             "missed by C05-R1..R11; C05-R12 added - which also reported two genuine defects of the unchanged evaluator (finding 36, fixed by 3fa2230); the seed was rebased onto the fix (patch_at_4df4700.diff is the original)"),
+    "C06e": ("C06", "DnfWmcProvenance::is_saturated compares the number of proofs instead of the formulas",
+             "DNF mode, a longer proof recorded before a shorter one that subsumes it", "C06-R9 (saturation compares whole tags)", "missed by C06-R1..R8; C06-R9 added"),
+    "C07e": ("C07", "var_to_vtree becomes a Vec indexed by variable id with 0 meaning `no leaf yet`, while the first leaf ever allocated has id 0",
+             "the first-introduced variable is registered again and then combined with an older diagram",
+             "C07-R10 (absence is not encoded by a value the allocator hands out)", "missed by C07-R1..R9; C07-R10 added"),
+    "C08e": ("C08", "the lineage compiler registers exclusive groups as wholes and then calls ensure_variable on every referenced seed, which resets exclusive choices to independent variables",
+             "a snapshot with an exclusive group and a lineage with a model in which a referenced choice is false",
+             "C08-R7 (a choice of an exclusive group is never registered as independent)", "missed by C08-R1..R6; C08-R7 added"),
+    "C09e": ("C09", "a same-instant fast path appends items stamped `app_time` to every active window in place and returns before the membership test and eviction",
+             "two items stamped exactly on a window close followed by an item before the next close", "C09-R7 (writer set of active_windows)", None),
+    "C10e": ("C10", "the window processor maintains the store incrementally per occurrence while content and store keep one entry per triple: evicting the older occurrence removes the only copy",
+             "the same triple twice in the stream with a firing in between, overlapping windows", "C10-R3 / R4 (eviction bookkeeping: everything loaded is recorded)", None),
     "C16b": ("C16", "sparql_aggregate returns the slice matched by the case-insensitive keyword helper instead of the canonical literal",
              "an aggregate keyword not written in upper case", "C16-R4 (keyword text never reaches the tree)",
              "missed by C16-R1..R3 (C01-R1 fired only through a floor, for the wrong reason); C16-R4 added, C01-R1 reads constant tables"),
